@@ -10,12 +10,18 @@ TECH_FAULT = "exhaustive fault-point enumeration (E1 choice-tree DFS, deviation-
 TECH_SCHED = "stateless model checking of the implementation under a controlled scheduler: all interleavings up to a preemption bound (iterative context bounding) plus environment fault choices"
 
 CHECKS = {
+ "C05": dict(cat="fault_enumeration", engine="E1-choice-tree", tech=TECH_FAULT,
+   text="52 write operations (Create/CreateInBatches/Save/Update(s)/Delete over nested graphs: belongs-to, has-one, has-many, many-to-many, polymorphic; FullSaveAssociations; Select-ed association deletes) x dialectors (RETURNING, LastInsertId; thorough adds PrepareStmt): the fault-free run fixes the driver calls and hook invocations, then every single fault (quick) / every set of up to 3 faults (thorough) at every driver call and hook invocation is enumerated; oracle: full dump of 9 tables equals the pre-state whenever a fault fired, the injected error is returned, no open transaction or checked-out connection",
+   note="SQLite dialect; faults on ROLLBACK are never injected; a failed COMMIT rolls back; 2 open known findings (Save fallback spans two implicit transactions)"),
  "C09": dict(cat="exploration", engine="E3-enumeration", tech=TECH_ENUM,
    text="every chain of condition-free calls up to length 2-4 x every update/delete finisher x plain/soft-delete model x AllowGlobalUpdate modes is executed on SQLite behind a recording driver; oracle = error identity + empty driver log + cell-level table diff; the positive half inserts each of 16 real conditions at every position",
    note="SQLite dialect; alphabets of DESIGN.md §3 C09; recording driver wraps mattn/go-sqlite3"),
  "C13": dict(cat="fault_enumeration", engine="E1-choice-tree", tech=TECH_FAULT,
    text="2661 programs (9 operations x 6 argument shapes of length 0-3 x child configurations by value/pointer x hooks/SkipHooks/UpdateColumn x own/caller transaction) are executed on SQLite with every hook invocation a choice point; every single hook failure (quick) and every pair (thorough) is enumerated; oracle: per-record hook multiset and order relative to the statement in the driver log, hooks run inside the operation's transaction (driver-level BEGIN window), failing hook => error returned, no later phase, all tables incl. the hooks' own marker writes equal the pre-state, SetColumn values are the values stored",
    note="SQLite dialect; hook logging through a Logger wrapper; assumptions listed in evidence; Save of a non-zero non-existing key, CreateInBatches and SkipDefaultTransaction are outside the alphabet"),
+ "C18": dict(cat="exploration", engine="E3-enumeration", tech=TECH_ENUM,
+   text="100 operations (writes with nested associations, preload/join reads, FindInBatches, CreateInBatches, Save fallback, association mode, Select-ed deletes) x handle bindings (WithContext, Session{Context}, …) x transaction wrappers (depth 0-2, Begin/Commit, savepoints, Connection) x PrepareStmt off/config/session x live/cancelled context: every driver call recorded (begin, prepare, exec, query, prepared exec/query) must carry the caller's context marker; with a cancelled context no prepare/exec/query reaches the driver",
+   note="SQLite dialect; contexts are identified by a value marker; database/sql itself refuses cancelled contexts once gorm hands them over"),
  "C14": dict(cat="model_checking", engine="E2-scheduler", tech=TECH_SCHED,
    text="the real prepare_stmt.go/gorm.go (instrumented at build time by overlay: sync -> scheduling shim, go/channel statements hooked) is explored under a cooperative scheduler: every interleaving of 2 threads (<=2-3 preemptions quick, <=4 thorough), 3 threads (<=2/3) and 4 threads (<=2, thorough) of Exec/Query/Transaction/Reset/Close/first-use-Session programs, with Prepare failures and ErrBadConn as environment choices; oracle per schedule: no deadlock/panic, results equal the sequential run, <=1 cache-level prepare per text and generation, no leaked driver statement after the final Close",
    note="database/sql and the fake driver are atomic steps; statement.go's per-statement sync.Map is not a scheduling point; data races are not decided by this check (see C07)"),
